@@ -242,7 +242,6 @@ pub fn run_fsweep(tier: &str, out: &mut dyn FnMut(String)) {
     let stride: u64 = if tier == "thorough" { 1 } else { 1024 };
     let nthreads: u64 = 16;
     let total: u64 = 1u64 << 32;
-    let chunk = total / nthreads;
     let check_std = |b: u32| -> bool {
         let x = f32::from_bits(b);
         let t1 = format!("{:.3}", x);
@@ -254,48 +253,59 @@ pub fn run_fsweep(tier: &str, out: &mut dyn FnMut(String)) {
             Err(_) => false,
         }
     };
-    let results: Vec<(u64, u64, Option<u32>)> = std::thread::scope(|sc| {
-        let hs: Vec<_> = (0..nthreads)
-            .map(|t| {
-                sc.spawn(move || {
-                    let mut iset = InstructionSet::new();
-                    iset.load();
-                    let (mut n, mut bad, mut first) = (0u64, 0u64, None);
-                    let mut b = t * chunk;
-                    let end = (t + 1) * chunk;
-                    while b < end {
-                        let bits = b as u32;
-                        n += 1;
-                        let mut ok = check_std(bits);
-                        if ok && (b / stride) % 4096 == 0 {
-                            // the implementation's own path
-                            let it = Item::float(f32::from_bits(bits));
-                            let t1 = it.to_string();
-                            let mut st = PushState::new();
-                            PushParser::parse_program(&mut st, &iset, &t1);
-                            ok = st.exec_stack.size() == 1 && st.exec_stack.get(0).map(|i| i.to_string()) == Some(t1);
-                        }
-                        if !ok {
-                            bad += 1;
-                            if first.is_none() {
-                                first = Some(bits);
-                            }
-                        }
-                        b += stride;
-                    }
-                    (n, bad, first)
-                })
-            })
-            .collect();
-        hs.into_iter().map(|h| h.join().unwrap_or((0, 1, Some(0)))).collect()
-    });
+    // 64 blocks, each split over the threads; a marker line after every block keeps the stall watchdog informed
     let (mut n, mut bad, mut first) = (0u64, 0u64, None);
-    for (a, b, f) in results {
-        n += a;
-        bad += b;
-        if first.is_none() {
-            first = f;
+    let nblocks: u64 = 64;
+    let block = total / nblocks;
+    for blk in 0..nblocks {
+        let chunk = block / nthreads;
+        let results: Vec<(u64, u64, Option<u32>)> = std::thread::scope(|sc| {
+            let hs: Vec<_> = (0..nthreads)
+                .map(|t| {
+                    sc.spawn(move || {
+                        let mut iset = InstructionSet::new();
+                        iset.load();
+                        let (mut n, mut bad, mut first) = (0u64, 0u64, None);
+                        let mut b = blk * block + t * chunk;
+                        let end = blk * block + (t + 1) * chunk;
+                        // keep the stride grid aligned over the whole range
+                        if b % stride != 0 {
+                            b += stride - b % stride;
+                        }
+                        while b < end {
+                            let bits = b as u32;
+                            n += 1;
+                            let mut ok = check_std(bits);
+                            if ok && (b / stride) % 4096 == 0 {
+                                // the implementation's own path
+                                let it = Item::float(f32::from_bits(bits));
+                                let t1 = it.to_string();
+                                let mut st = PushState::new();
+                                PushParser::parse_program(&mut st, &iset, &t1);
+                                ok = st.exec_stack.size() == 1 && st.exec_stack.get(0).map(|i| i.to_string()) == Some(t1);
+                            }
+                            if !ok {
+                                bad += 1;
+                                if first.is_none() {
+                                    first = Some(bits);
+                                }
+                            }
+                            b += stride;
+                        }
+                        (n, bad, first)
+                    })
+                })
+                .collect();
+            hs.into_iter().map(|h| h.join().unwrap_or((0, 1, Some(0)))).collect()
+        });
+        for (a, b, f) in results {
+            n += a;
+            bad += b;
+            if first.is_none() {
+                first = f;
+            }
         }
+        out(format!("#p fsweep block {} of {}", blk + 1, nblocks));
     }
     // windows around the powers of two and of ten, where the printed precision and the float spacing cross
     let mut extra: Vec<u32> = vec![];
